@@ -599,3 +599,120 @@ def search_C17(rng, deadline, broken):
 
 def replay_C17(fi):
     return _c17_episode(random.Random(fi["episode_seed"]), fi["steps"]) is None
+
+
+# ------------------------------------------------------------------ C02
+def _c02_one(lat, lon, dt):
+    import astral.sun as sun
+    from astral import Observer, refraction_at_zenith
+    from oracle import sun_almanac as A
+    o = Observer(lat, lon)
+    e_true = sun.elevation(o, dt, False)
+    z_true = sun.zenith(o, dt, False)
+    az = sun.azimuth(o, dt)
+    e_app = sun.elevation(o, dt, True)
+    if abs(z_true - (90.0 - e_true)) > 1e-9:
+        return "zenith %r is not 90 - elevation %r" % (z_true, e_true)
+    if not (0.0 <= az < 360.0):
+        return "azimuth %r outside [0, 360)" % az
+    if not (0.0 <= z_true <= 180.0):
+        return "zenith %r outside [0, 180]" % z_true
+    r = e_app - e_true
+    if abs(r - A.refraction(z_true)) > 1e-9:
+        return "apparent - true elevation = %r, refraction model gives %r" % (r, A.refraction(z_true))
+    if r < 0 or r >= 0.6 or (e_true >= 85 and r != 0):
+        return "refraction %r violates 0 <= r < 0.6 / zero from 85 deg" % r
+    u = dt if dt.tzinfo is not None else dt.replace(tzinfo=datetime.timezone.utc)
+    alt, aaz = A.alt_az(lat, lon, u)
+    tol = 0.03 if abs(lat) <= 89.8 else 0.26
+    if abs(alt - e_true) > tol:
+        return "elevation %.5f vs independent ephemeris %.5f (tolerance %.2f)" % (e_true, alt, tol)
+    if abs(lat) <= 89.8:
+        da = abs((aaz - az + 180.0) % 360.0 - 180.0) * math.cos(math.radians(e_true))
+        if da > 0.03:
+            return "azimuth %.5f vs independent ephemeris %.5f (scaled diff %.4f)" % (az, aaz, da)
+    return None
+
+
+def search_C02(rng, deadline, broken):
+    import gens
+    import zones
+    while time.time() < deadline:
+        lat, lon = gens.rand_lat(rng), gens.rand_lon(rng)
+        naive = datetime.datetime.fromordinal(rng.randint(gens.D1900, gens.D2100)) + \
+            datetime.timedelta(seconds=rng.randint(0, 86399))
+        if rng.random() < 0.4:
+            dt, zl = naive, "naive"
+        else:
+            z = zones.rand_zone(rng, naive.date())
+            dt, zl = naive.replace(tzinfo=datetime.timezone.utc).astimezone(z.tzinfo), z.describe()
+        try:
+            r = _c02_one(lat, lon, dt)
+        except Exception as exc:  # noqa: BLE001
+            r = "raised %r" % (exc,)
+        if r:
+            return {"clause": r, "latitude": lat, "longitude": lon, "datetime": dt.isoformat(),
+                    "zone": zl}
+    return None
+
+
+def replay_C02(fi):
+    import zones
+    dt = datetime.datetime.fromisoformat(fi["datetime"])
+    if fi["zone"] != "naive" and not fi["zone"].startswith("fixed"):
+        dt = dt.astimezone(zones.iana(fi["zone"]).tzinfo)
+    return _c02_one(fi["latitude"], fi["longitude"], dt) is None
+
+
+# ------------------------------------------------------------------ C06
+CHAIN = [("dawn18", 0), ("dawn12", 0), ("dawn6", 0), ("sunrise", 1), ("rise+6", 2), ("noon", 3),
+         ("set+6", 4), ("sunset", 5), ("dusk6", 6), ("dusk12", 6), ("dusk18", 6)]
+
+
+def _c06_one(o, d, z):
+    import astral.sun as sun
+    from astral import SunDirection
+    tz = z.tzinfo
+    fns = {
+        "dawn18": lambda: sun.dawn(o, d, 18, tz), "dawn12": lambda: sun.dawn(o, d, 12, tz),
+        "dawn6": lambda: sun.dawn(o, d, 6, tz), "sunrise": lambda: sun.sunrise(o, d, tz),
+        "rise+6": lambda: sun.time_at_elevation(o, 6, d, SunDirection.RISING, tz),
+        "noon": lambda: sun.noon(o, d, tz),
+        "set+6": lambda: sun.time_at_elevation(o, 6, d, SunDirection.SETTING, tz),
+        "sunset": lambda: sun.sunset(o, d, tz), "dusk6": lambda: sun.dusk(o, d, 6, tz),
+        "dusk12": lambda: sun.dusk(o, d, 12, tz), "dusk18": lambda: sun.dusk(o, d, 18, tz),
+    }
+    noon = fns["noon"]().astimezone(datetime.timezone.utc)
+    lim = datetime.timedelta(hours=11.5)
+    got = []
+    for name, _ in CHAIN:
+        try:
+            t = fns[name]().astimezone(datetime.timezone.utc)
+        except ValueError:
+            continue
+        if abs(t - noon) <= lim:
+            got.append((name, t))
+    for (n1, t1), (n2, t2) in zip(got, got[1:]):
+        if not t1 < t2:
+            return "%s at %s is not before %s at %s" % (n1, t1.isoformat(), n2, t2.isoformat())
+    return None
+
+
+def search_C06(rng, deadline, broken):
+    import gens
+    while time.time() < deadline:
+        o, d, z = _sun_inputs(rng)
+        if isinstance(o.elevation, tuple):
+            o = gens.rand_observer(rng, tuples=False)     # KF-FEATURE: tuple form is a known finding
+        try:
+            r = _c06_one(o, d, z)
+        except Exception as exc:  # noqa: BLE001
+            r = "raised %r" % (exc,)
+        if r:
+            return _descr(o, d, z, clause=r)
+    return None
+
+
+def replay_C06(fi):
+    return _c06_one(_obs_from_descr(fi["observer"]), datetime.date.fromisoformat(fi["date"]),
+                    _zone_from_descr(fi["zone"])) is None
